@@ -216,6 +216,30 @@ pub fn draw_cuesheet(ch: &Choices) -> Option<Cuesheet> {
     let total = 588 * (600 + ch.draw("meta.cue.len", 4000));
     let text = draw_cue_text(ch, total);
     let mut c = Cuesheet::parse(total, &text).ok()?;
+    // the track table can also be built from a plain Vec (Contiguous::try_from): drop the first track, so
+    // that the first element is not a valid first one — the constructor must refuse it, or whatever the
+    // writer then accepts must read back
+    if ch.draw("meta.cue.fromvec", 5) == 4 {
+        use flac_codec::metadata::contiguous::Contiguous;
+        match &mut c {
+            Cuesheet::CDDA { tracks, .. } if tracks.len() > 1 => {
+                let mut v: Vec<_> = std::mem::take(tracks).into();
+                let keep = v.clone();
+                v.remove(0);
+                match Contiguous::try_from(v) {
+                    Ok(t) => {
+                        *tracks = t;
+                        crate::monitor::probe("cue_track_table_from_vec_with_invalid_first_accepted");
+                    }
+                    Err(_) => {
+                        *tracks = Contiguous::try_from(keep).ok()?;
+                        crate::monitor::probe("cue_track_table_from_vec_with_invalid_first_refused");
+                    }
+                }
+            }
+            _ => {}
+        }
+    }
     // the lead-in is a public field of the CD-DA variant: any value can be handed to the writer
     if let Cuesheet::CDDA { lead_in_samples, .. } = &mut c {
         if ch.draw("meta.cue.leadin", 4) == 3 {
